@@ -150,7 +150,14 @@ def r1234_writer(ctx, chk):
         if cond != TRUE and label not in LABELS:
             # a further line that only some entries carry: the property lists the lines a block has, it does not forbid more;
             # such a line must still be a line of its own (checked below for every unlisted label)
-            if not (is_const(tail) and isinstance(tail[1], str) and tail[1].endswith("\n")) or parts[0][1].count("\n"):
+            hv = [(_unfmt(h) if h[0] == "fmt" else h) for h in holes]
+            truth_of_value = [c_ for c_ in (cond[1] if cond[0] == "and" else (cond,)) if c_[0] == "truthy" and any(c_[1] == v_ or (v_[0] == "idx" and c_[1][0] == "mcall" and c_[1][2] == "get"
+                              and c_[1][1] == v_[1] and c_[1][3] and c_[1][3][0] == v_[2]) for v_ in hv)]
+            if truth_of_value:
+                chk.violation(rule, where, "the line %r is written only if the value it states is truthy (`%s`): an entry whose recorded value is False / 0 / [] loses the line although "
+                              "the batch produced that value" % (label, show(truth_of_value[0])[:80]), expected="written whenever the entry has the value (`key in entry` / `is not None`)",
+                              found=show(cond)[:120], construct="save_results line %s dropped for falsy values" % label)
+            elif not (is_const(tail) and isinstance(tail[1], str) and tail[1].endswith("\n")) or parts[0][1].count("\n"):
                 chk.violation(rule, where, "the optional line %r does not end its own line: the next line of the block is glued to it" % label,
                               expected="one line per label", found=show(arg)[:120], construct="save_results optional line %s" % label)
             else:
@@ -227,9 +234,14 @@ def r1234_writer(ctx, chk):
             elif read_keys - written:
                 chk.violation("C16.3", f.where(), "the report reads the keys %s which run_games never writes (KeyError while saving)" % sorted(read_keys - written), expected=sorted(written),
                               found=sorted(read_keys), construct="save_results unknown keys")
-            else:
-                chk.violation("C16.3", f.where(), "run_games computes %s but the report never states them" % sorted(written - read_keys), expected=sorted(written), found=sorted(read_keys),
+            elif (written - read_keys) & set(C12.SLOT_OF) or (written - read_keys) & {"msg", "n_states", "n_transitions", "total_time"}:
+                chk.violation("C16.3", f.where(), "run_games computes %s but the report never states them" % sorted((written - read_keys)), expected=sorted(written), found=sorted(read_keys),
                               construct="save_results unreported keys")
+            else:
+                # further entries that the run records and the text report does not show (read by another consumer, or through .get):
+                # nothing the property lists is missing
+                chk.ok("C16.3", f.where(), "every key the report reads is written by run_games; %d further recorded entries are not part of the text report: %s" % (
+                    len(written - read_keys), sorted(written - read_keys)))
     # C16.4 path
     if file_obj is not None and (file_obj[0] == "mcall" and file_obj[2] == "fdopen" or file_obj[0] == "call" and file_obj[1] == "os.fdopen") :
         # os.fdopen(os.open(path, flags, mode), "w"): the flags decide whether an existing report is truncated
